@@ -80,10 +80,15 @@ def _dec2base(value, places=None, base=16):
     if places is None:
         places = 0
     else:
-        places = int(places)
-        if places < len(value):
+        if places in ERROR_CODES:
+            return places
+        try:
+            places = int(places)
+        except ValueError:
+            return VALUE_ERROR
+        if not (len(value) <= places <= 10):
             return NUM_ERROR
-    return value.zfill(int(places))
+    return value.zfill(places)
 
 
 def _base2base(value, places=None, base_in=16, base_out=16):
